@@ -8,10 +8,10 @@ rsync -a --exclude .git /repo/ "$D"/ || exit 2
 (cd "$D" && patch -p1 -s < "$P") || { echo "patch does not apply"; rm -rf "$D"; exit 2; }
 export GOFLAGS=-mod=mod GOPROXY=off GOSUMDB=off GOWORK=off GOTOOLCHAIN=local IOCVET_NO_SELFTEST=1
 if [ -z "$*" ]; then
-  ./bin/iocvet -repo "$D" -verif "$PWD" all 2>&1 | sed "s#$D/##g" | cut -c1-400
+  ./bin/iocvet -repo /repo -variant "$D" -verif "$PWD" all 2>&1 | sed "s#$D/##g" | cut -c1-400
 else
   for p in "$@"; do
-    out=$(./bin/iocvet -repo "$D" -verif "$PWD" -no-evidence "$p" 2>&1); rc=$?
+    out=$(./bin/iocvet -repo /repo -variant "$D" -verif "$PWD" -no-evidence "$p" 2>&1); rc=$?
     if [ $rc -ne 0 ]; then echo "== $p exit=$rc"; echo "$out" | grep -E '^(VIOLATED|UNDECIDED)' | sed "s#$D/##g" | cut -c1-400; fi
   done
 fi
